@@ -14,8 +14,8 @@ package main
 // `_args` the real resolver delivered to every stage job and the recorded
 // top-level outs of the same Tier-A run.
 //
-// The refinement theorems with node-wise store (`resolver_refines_den_mapstatic_checked` for map calls
-// of stages, `resolver_refines_den_mappedpipes_checked` for mapped pipelines / nesting; both cover
+// The refinement theorems with node-wise store (`resolver_refines_den_mapstatic_checked_partial` for map calls
+// of stages, `resolver_refines_den_mappedpipes_checked_partial` for mapped pipelines / nesting; both cover
 // plain programs) are replayed on every program
 // whose decidable hypotheses hold (`frag=1`): twoPhase must equal den.
 
@@ -395,7 +395,7 @@ func c01StaticCheck(c *Ctx, cases []c01StaticCase, stream string, reported map[s
 				r.violate(Violation{Kind: "correspondence", Key: "C01:two-phase-vs-den",
 					What:   "twoPhase differs from den on a program that passes wellTypedB/acyclicB (the driver's encoding or the theorem's replay is broken)",
 					Input:  map[string]interface{}{"program": cs.src, "name": cs.name},
-					Broken: "resolver_refines_den_mapstatic_checked / resolver_refines_den_mappedpipes_checked / resolver_refines_den_disabled_checked / resolver_refines_den_runtime_checked"})
+					Broken: "resolver_refines_den_mapstatic_checked_partial / resolver_refines_den_mappedpipes_checked_partial / resolver_refines_den_disabled_checked_partial / resolver_refines_den_runtime_checked_partial"})
 			}
 		}
 		if rep.den == "eq" {
